@@ -828,7 +828,7 @@ func jbConcurrent(r *jbRun, ctx context.Context, tmp string, skipShell bool) {
 	// (stdout is written in two parts with a pause in between, so that overlapping executions interleave their writes; one
 	// accessor call is atomic, so what a callback reads from Stdout() must be the complete output of ONE execution)
 	var mixed atomic.Value
-	sj := job.NewShellJobWithCallback(fmt.Sprintf(`i=1; while ! mkdir %s/$i 2>/dev/null; do i=$((i+1)); done; printf "out-$i"; printf "err-$i" >&2; sleep 0.01; printf ":$i"; exit $((i %% 200))`, counter),
+	sj := job.NewShellJobWithCallback(fmt.Sprintf(`i=1; while ! mkdir %s/$i 2>/dev/null; do i=$((i+1)); done; printf "out-$i"; printf "err-$i" >&2; j=0; while [ $j -lt 3000 ]; do j=$((j+1)); done; printf ":$i"; exit $((i %% 200))`, counter),
 		func(_ context.Context, j *job.ShellJob) {
 			atomic.AddInt64(&scb, 1)
 			var a, b int
